@@ -67,6 +67,9 @@ func (r *pfbReader) Read(b []byte) (n int, err error) {
 			k, err = r.r.Read(b[:k])
 			r.len -= int64(k)
 			n += k
+			if err == io.EOF && r.len > 0 {
+				err = io.ErrUnexpectedEOF
+			}
 			if err != nil {
 				return n, err
 			}
@@ -81,6 +84,9 @@ func (r *pfbReader) Read(b []byte) (n int, err error) {
 			}
 			k, err = io.ReadFull(r.r, b[:k])
 			r.len -= int64(k)
+			if err == io.EOF && k == 0 && r.len > 0 {
+				err = io.ErrUnexpectedEOF
+			}
 			if err != nil {
 				return n, err
 			}
